@@ -422,10 +422,13 @@ impl<L: Localize> TimeDomainIterator<L> {
 
         while self.curr_schedule.peek().map(|tr| tr.kind) == Some(curr_kind) {
             if let Some(max_interval_size) = self.opening_hours.ctx.approx_bound_interval_size {
-                // A bound too big for an extra day to be added can never be exceeded.
-                let exceeds_bound = max_interval_size
-                    .checked_add(&chrono::TimeDelta::days(1))
-                    .is_some_and(|max_size| self.curr_date - start_date > max_size);
+                // A bound too big for an extra day to be added can never be exceeded. The bound is
+                // only compared once a day has been consumed, so that the iterator makes progress
+                // whatever the bound is (even zero or negative).
+                let exceeds_bound = self.curr_date > start_date
+                    && max_interval_size
+                        .checked_add(&chrono::TimeDelta::days(1))
+                        .is_some_and(|max_size| self.curr_date - start_date > max_size);
 
                 if exceeds_bound {
                     return;
